@@ -34,6 +34,10 @@ if demo and not skip_demo:
     confirm["demo_without_patch_tail"] = out_without[-300:]
     print(f"demo: with patch rc={rc_with}, without rc={rc_without}")
 
+rc, out = sh("git -C /repo status --short")
+if out.strip():
+    print("REFUSING: /repo has uncommitted changes (they would be lost):", out)
+    sys.exit(3)
 # the patch must apply to /repo's HEAD
 rc, out = sh(f"git -C /repo apply --check {dst}/patch.diff")
 if rc != 0:
